@@ -106,6 +106,12 @@ def run(ctx):
     for _ in range(n):
         d = rng.choice([3, 3, 4] if ctx.quick else [3, 4, 4, 5])
         bases.append(([rng.choice((1, -1, 0)) for _ in range(d)], random_custom_basis(rng, d)))
+    # above six dimensions (sign table filled on demand): custom bases with 128 / 256 blade names
+    for d in ([7] if ctx.quick else [7, 7, 8]):
+        sig = [rng.choice((1, -1, 0)) for _ in range(d)]
+        if len(set(sig)) == 1:
+            sig[0] = -sig[0] if sig[0] else 1
+        bases.append((sig, random_custom_basis(rng, d)))
     named = []
     for nm in ('2DPGA', '3DPGA', 'STAP'):
         named.append(nm)
@@ -195,6 +201,21 @@ def run(ctx):
                     ctx.case((desc.get('fromname') or tuple(desc['basis']), tuple(kx), sp), tag='accessor', sample=False)
                     if got != exp:
                         ctx.violation('accessor', {**desc, 'keys': kx, 'spelling': sp}, exp, got, key='relabel:accessor')
+                    # a blade name given as a *key* (keys=(name,), {name: value}): either refused or the blade of that spelling,
+                    # i.e. what the keyword form alg.multivector(name=value) builds
+                    if d <= 4:
+                        try:
+                            kwform = mv_to_dict(alg.multivector(**{sp: Fraction(7)}))
+                        except Exception:
+                            kwform = None
+                        for fname, thunk in (('keys=(name,)', lambda: alg.multivector(keys=(sp,), values=[Fraction(7)])),
+                                             ('{name: value}', lambda: alg.multivector({sp: Fraction(7)}))):
+                            try:
+                                built = mv_to_dict(thunk())
+                            except Exception:
+                                continue
+                            if kwform is not None and built != kwform:
+                                ctx.violation('name-as-key', {**desc, 'spelling': sp, 'form': fname}, show_d(kwform), show_d(built), key='relabel:name-as-key')
         # matrix representation commutes with the map (homomorphism in the custom basis)
         if d <= 3:
             bad = 0
